@@ -7,7 +7,11 @@
   of the invocation before going on with `next`; `kind` = "noop" (a state-checking fn that is already satisfied:
   touches nothing) | "label" (sets metadata.labels.fn = "1" if absent).
 
-Run as `python -m harness.props.sim_c06 <wall>`: the shared worker loop with these two extensions patched in
+* a configurable finalizer name: the ops `fins` / `strip_own_finalizer` take `settings["persistence.finalizer"]`
+  (if set) for the operator's own finalizer instead of kopf's default name;
+* daemon mode "linger": waits for the stop flag, then needs `after` seconds before it returns.
+
+Run as `python -m harness.props.sim_c06 <wall>`: the shared worker loop with these extensions patched in
 (module attributes only, in this subprocess only). `run_many` is the shared pool driving this module.
 """
 from __future__ import annotations
@@ -93,6 +97,71 @@ def _install() -> None:
             return None
         cluster.fault_rules.append(stale_merge)
 
+    # The foreign-finalizer ops of the shared language know kopf's DEFAULT finalizer name only. With
+    # `settings["persistence.finalizer"]` overridden, "the own one" is the configured name (and the default
+    # name, if it shows up in a list, is just one more foreign finalizer).
+    orig_apply_op = scenario.Sim.apply_op
+
+    def apply_op(self: Any, op: list) -> None:
+        own = (self.sc.get("settings") or {}).get("persistence.finalizer")
+        if own is None or op[0] not in ("fins", "strip_own_finalizer"):
+            return orig_apply_op(self, op)
+        c, kex, args = self.cluster, self.kex, op[1:]
+        if op[0] == "fins":
+            def f(b: dict, new: list = args[1]) -> None:
+                cur = b["metadata"].get("finalizers", [])
+                out = list(new[: args[2] if len(args) > 2 else len(new)])
+                if own in cur:
+                    out.append(own)
+                out += list(new[args[2]:]) if len(args) > 2 else []
+                b["metadata"]["finalizers"] = out
+            c.mutate(kex, "ns", args[0], f)
+        else:
+            c.mutate(kex, "ns", args[0], lambda b: b["metadata"].__setitem__(
+                "finalizers", [x for x in b["metadata"].get("finalizers", []) if x != own]))
+        self.mark("op", op=op)
+
+    # One more daemon behaviour: "linger" — obeys the stop flag, but needs `after` seconds of clean-up before it
+    # returns (no cancellation timeout: kopf can only poll for its exit; with one: it is cancelled meanwhile).
+    orig_make_daemon = observe.Observer._make_daemon
+
+    def _make_daemon(self: Any, h: dict) -> Any:
+        d = h.get("daemon", {})
+        if d.get("mode") != "linger":
+            return orig_make_daemon(self, h)
+        import asyncio
+        after, poll = float(d.get("after", 2.0)), float(d.get("poll", 0.5))
+
+        async def daemon(**kwargs: Any) -> Any:
+            if self._muted():
+                raise asyncio.CancelledError()
+            stopped = kwargs["stopped"]
+            rec = self._base_rec(h, kwargs)
+            rec["mode"] = "linger"
+            key = (rec["uid"] or "", h["id"])
+            rec["n"] = self.counters.get(key, 0)
+            self.counters[key] = rec["n"] + 1
+            self.calls.append(rec)
+            try:
+                while not stopped:
+                    await stopped.wait(poll)
+                rec["stop_reason"] = repr(getattr(stopped, "reason", None))
+                rec["flag_seen"] = self.sim.now()
+                await asyncio.sleep(after)
+                rec["outcome"] = "obeyed-flag-after-cleanup"
+                return None
+            except asyncio.CancelledError:
+                rec["outcome"] = "cancelled"
+                raise
+            finally:
+                rec["t_end"] = self.sim.now()
+                rec["muted_end"] = self._muted()
+
+        daemon.__name__ = daemon.__qualname__ = h["id"]
+        return daemon
+
+    observe.Observer._make_daemon = _make_daemon  # type: ignore[assignment]
+    scenario.Sim.apply_op = apply_op  # type: ignore[assignment]
     scenario.Sim.__init__ = sim_init  # type: ignore[assignment]
     scenario.build_registry = build_registry  # type: ignore[assignment]
     observe.Observer._perform = _perform  # type: ignore[assignment]
